@@ -1,6 +1,9 @@
 mod ast;
 mod cfgconv;
 mod chart;
+mod dbgparse;
+mod deriv;
+mod gencrate;
 mod engine;
 mod ffref;
 mod gens;
@@ -46,11 +49,28 @@ fn main() {
         show(&args[2], &args[3]);
         return;
     }
+    if id == "gen" {
+        // pv gen g.par outdir : writes parser.rs and grammar_trait.rs
+        let text = std::fs::read_to_string(&args[2]).unwrap();
+        let o = pipeline::Opts::default();
+        match pipeline::build(&text, &o).and_then(|b| pipeline::trait_source(&b, &o).map(|t| (b, t))) {
+            Ok((b, (t, _))) => {
+                std::fs::create_dir_all(&args[3]).unwrap();
+                std::fs::write(format!("{}/parser.rs", args[3]), &b.parser_src).unwrap();
+                std::fs::write(format!("{}/grammar_trait.rs", args[3]), &t).unwrap();
+            }
+            Err(e) => crate::out!("{e:?}"),
+        }
+        return;
+    }
     // global watchdog: a run that exceeds its budget is inconclusive (exit 2), never a violation
     let limit: u64 = std::env::var("PV_WATCHDOG_S").ok().and_then(|s| s.parse().ok()).unwrap_or(
         if tier_from(args.get(2).map(|s| s.as_str())) == engine::Tier::Thorough { 4 * 3600 } else { 1500 },
     );
     let idc = id.clone();
+    let tier_name = if args.get(2).map(|s| s.as_str()) == Some("--replay") { "replay" } else { tier_from(args.get(2).map(|s| s.as_str())).name() };
+    // SAFETY: no other thread exists yet
+    unsafe { std::env::set_var("VERIF_TIER_EFFECTIVE", tier_name) };
     std::thread::spawn(move || {
         std::thread::sleep(std::time::Duration::from_secs(limit));
         crate::out!("HARNESS-ERROR property={idc}: watchdog after {limit}s (inconclusive)");
@@ -87,6 +107,8 @@ fn main() {
         "C29" => props::ls::C29,
         "C30" => props::ls::C30,
         "C34" => props::ls::C34,
+        "C22" => props::astprops::C22,
+        "C23" => props::astprops::C23,
         "C31" => props::small::C31,
         "C32" => props::small::C32,
     );
